@@ -2,7 +2,7 @@
    Only statements + `exact` + Print Assumptions live here. Model: C16_Defs (imports the kernels
    translated from include/nano/tensor/{dims,tensor}.h on every run). *)
 From Coq Require Import List ZArith Bool.
-From LN Require Import C16_Defs C16_Statements C16_Integral C16_StorageDefs C16_Storage.
+From LN Require Import C16_Defs C16_Statements C16_Integral C16_StorageDefs C16_Storage C16_Compose.
 Import ListNotations.
 Local Open Scope Z_scope.
 
@@ -145,4 +145,44 @@ Example C16_nonvacuous :
   unoffset [3; 4; 5] 59 = [2; 3; 4] /\ view_tensor [3; 4; 5] [2; 3] = (55, [5]) /\
   reshape [3; 4; 5] [6; -1] = [6; 10] /\ slice_validb [3; 4; 5] 1 3 = true /\
   integral [2; 3] [1; 2; 3; 4; 5; 6] = [1; 3; 6; 5; 12; 21].
+Proof. vm_compute. repeat split; reflexivity. Qed.
+
+(* ---- composition of views (C16_Compose.v) ------------------------------------------------------- *)
+(* tensor(p).tensor(q) is tensor(p ++ q): same start, same remaining dimensions, prefix still valid *)
+Theorem C16_nested_view : forall d p q,
+  validpb d (p ++ q) = true ->
+  validpb d p = true /\ validpb (snd (view_tensor d p)) q = true /\
+  fst (view_tensor d p) + fst (view_tensor (snd (view_tensor d p)) q) = fst (view_tensor d (p ++ q)) /\
+  snd (view_tensor (snd (view_tensor d p)) q) = snd (view_tensor d (p ++ q)).
+Proof. exact c_nested_view. Qed.
+Print Assumptions C16_nested_view.
+
+(* slice(b, e).slice(b', e') is slice(b + b', b + e'), and that slice is valid for the parent *)
+Theorem C16_slice_of_slice : forall x r b e b' e',
+  slice_validb (x :: r) b e = true ->
+  slice_validb (snd (view_slice (x :: r) b e)) b' e' = true ->
+  slice_validb (x :: r) (b + b') (b + e') = true /\
+  fst (view_slice (x :: r) b e) + fst (view_slice (snd (view_slice (x :: r) b e)) b' e') =
+    fst (view_slice (x :: r) (b + b') (b + e')) /\
+  snd (view_slice (snd (view_slice (x :: r) b e)) b' e') = snd (view_slice (x :: r) (b + b') (b + e')).
+Proof. exact c_slice_of_slice. Qed.
+Print Assumptions C16_slice_of_slice.
+
+(* "exactly": two different partial indices of the same length address disjoint, equally long element ranges
+   (guard: the product of the remaining dimensions is not negative) *)
+Theorem C16_views_disjoint : forall d p q,
+  validpb d p = true -> validpb d q = true -> length p = length q -> p <> q ->
+  0 <= size (dims0 d p) ->
+  let '(bp, n) := view_vector d p in
+  let '(bq, m) := view_vector d q in
+  n = m /\ (bp + n <= bq \/ bq + m <= bp).
+Proof. exact c_views_disjoint. Qed.
+Print Assumptions C16_views_disjoint.
+
+Example C16_compose_nonvacuous :
+  validpb [3; 4; 5] ([2] ++ [3]) = true /\ view_tensor [4; 5] [3] = (15, [5]) /\ view_tensor [3; 4; 5] [2] = (40, [4; 5]) /\
+  slice_validb [6; 2] 1 5 = true /\ slice_validb (snd (view_slice [6; 2] 1 5)) 1 3 = true /\
+  view_slice [6; 2] 2 4 = (4, [2; 2]) /\
+  validpb [3; 4; 5] [1; 3] = true /\ validpb [3; 4; 5] [2; 0] = true /\
+  view_vector [3; 4; 5] [1; 3] = (35, 5) /\ view_vector [3; 4; 5] [2; 0] = (40, 5).
 Proof. vm_compute. repeat split; reflexivity. Qed.
